@@ -16,7 +16,7 @@ from ..cfg import must_facts, holds
 from ..rules import event_facts, call_sites
 from ..mutate import mutate, remove_stmts, replace_stmt, replace_expr, parse_stmt, parse_expr
 from ..model import AnalysisError
-from ..x_scope import own_nodes
+from ..x_scope import own_nodes, strip_annotations
 from ..x_flow import protected
 
 TECHNIQUE = "must-pass-through (dominance with kills) on the CFG of format() + local exception-protection lint"
@@ -244,6 +244,7 @@ def rule_safe_unicode(ck, fi):
 
 
 def run(ck):
+    ck.repo = strip_annotations(ck.repo, F)
     ck.rule("C45.indent-return", "every return of LogFormatter.format is `<text>.replace('\\n', '\\n' + blanks)` taken after the last modification of the text")
     ck.rule("C45.message-guard", "record.getMessage() and the message conversion run inside try/except Exception")
     ck.rule("C45.message-set", "record.message is assigned on every path before the format string is applied; the fallback does not re-apply the caller's format")
